@@ -369,15 +369,25 @@ impl<'a> PrivacyUnitTracking<'a> {
                     .right(Relation::from(right))
                     .build();
                 let mut builder = Relation::map();
+                // Matched rows have equal unit ids; the rows an outer join preserves have them on one side only
                 builder = builder.with((
                     PrivacyUnit::privacy_unit(),
-                    Expr::col(format!("_LEFT{}", PrivacyUnit::privacy_unit())),
+                    Expr::coalesce(
+                        Expr::col(format!("_LEFT{}", PrivacyUnit::privacy_unit())),
+                        Expr::col(format!("_RIGHT{}", PrivacyUnit::privacy_unit())),
+                    ),
                 ));
                 builder = builder.with((
                     PrivacyUnit::privacy_unit_weight(),
                     Expr::multiply(
-                        Expr::col(format!("_LEFT{}", PrivacyUnit::privacy_unit_weight())),
-                        Expr::col(format!("_RIGHT{}", PrivacyUnit::privacy_unit_weight())),
+                        Expr::coalesce(
+                            Expr::col(format!("_LEFT{}", PrivacyUnit::privacy_unit_weight())),
+                            Expr::val(1),
+                        ),
+                        Expr::coalesce(
+                            Expr::col(format!("_RIGHT{}", PrivacyUnit::privacy_unit_weight())),
+                            Expr::val(1),
+                        ),
                     ),
                 ));
                 builder = join.names().iter().fold(builder, |b, (p, n)| {
